@@ -32,10 +32,12 @@ def wire_of(case):
             piece = piece[:i] + b";x=1;y" + piece[i:]
         out.extend(piece)
     out.extend(b"0" + (b";last=z" if case["lastext"] else b"") + b"\r\n")
+    # header text is latin-1 on the wire (RFC 7230): the second trailer value has bytes that are not ASCII (nor valid UTF-8)
+    vals = [b"v1", b"v\xe9\xff 2"]
     for i in range(case["trailers"]):
-        out.extend(b"T%d: v%d\r\n" % (i + 1, i + 1))
+        out.extend(b"T%d: %s\r\n" % (i + 1, vals[i]))
     out.extend(b"\r\n")
-    return bytes(out), body, [("t%d" % (i + 1), "v%d" % (i + 1)) for i in range(case["trailers"])]
+    return bytes(out), body, [("t%d" % (i + 1), vals[i].decode("iso-8859-1")) for i in range(case["trailers"])]
 
 
 def decode_raw(frags):
